@@ -35,6 +35,21 @@ package fsm
 // generated only between rows that touch different keys (commuting writes), so
 // the end state does not depend on the delivery order; acks are per row.
 //
+// Source-side apply batches are what the source's Raft group would produce as
+// well: besides single commands, 2-4 commands share one ApplyBatch call -
+// ordinary writes of the migrating hash slot, writes of the source's other hash
+// slot, replicated outbox acks, a re-issued fence, and the enter-fence command
+// itself at any position (a client write racing with the fence proposal), so a
+// write can be ordered before or after the fence INSIDE the batch that sets it.
+// Every command is judged as if it had been applied alone, in batch order.
+//
+// Writes include the channel-latest projection: single rows and multi-row
+// batches in caller order whose rows carry their own hash slot (pkg/cluster
+// UpsertChannelLatestBatch groups by physical slot only), i.e. rows of the
+// migrating hash slot interleaved with rows of the slot's other hash slot and
+// routed with the hash slot of the first row. The target must replay exactly the
+// migrating hash slot's rows of such a command.
+//
 // Target-side apply batches are what the target's Raft group would produce:
 // apply_delta commands share a batch with ordinary commands of the target's own
 // hash slot 7 (writes, channel-migration task creates/claims whose guard fails
@@ -158,8 +173,8 @@ func (w verifC39Write) String() string {
 }
 
 func verifC39Latest(rt *rapid.T, serial int) metadb.ChannelLatest {
-	// LastMessageSeq grows with every generated row, so a channel-latest row is a
-	// plain overwrite in application order (no reliance on how stale rows resolve)
+	// every generated row has its own LastMessageSeq (no ties); rows reach a state
+	// machine mostly, but not always, in generation order
 	seq := uint64(serial)
 	return metadb.ChannelLatest{ChannelID: rapid.SampledFrom(verifC39Chans).Draw(rt, "latestCh"), ChannelType: verifC39ChType,
 		LastMessageID: seq * 10, LastMessageSeq: seq, LastAt: int64(1000 + serial),
@@ -172,7 +187,7 @@ func verifC39Latest(rt *rapid.T, serial int) metadb.ChannelLatest {
 // rows of both in any order (at least one row is for hs).
 func verifC39GenWrite(rt *rapid.T, serial *int, hs uint16, other int) verifC39Write {
 	*serial++
-	switch rapid.IntRange(0, 5).Draw(rt, "writeKind") {
+	switch rapid.IntRange(0, 6).Draw(rt, "writeKind") {
 	case 0:
 		return verifC39Write{kind: "user", hs: hs, user: metadb.User{
 			UID: rapid.SampledFrom(verifC39UIDs).Draw(rt, "uid"), Token: fmt.Sprintf("tok-%d", *serial),
@@ -190,7 +205,7 @@ func verifC39GenWrite(rt *rapid.T, serial *int, hs uint16, other int) verifC39Wr
 	case 4:
 		return verifC39Write{kind: "latest", hs: hs, items: []ChannelLatestBatchItem{{HashSlot: hs, Latest: verifC39Latest(rt, *serial)}}}
 	default:
-		n := rapid.IntRange(2, 5).Draw(rt, "latestRows")
+		n := rapid.IntRange(2, 6).Draw(rt, "latestRows")
 		items := make([]ChannelLatestBatchItem, 0, n)
 		mine := false
 		for i := 0; i < n; i++ {
@@ -255,7 +270,9 @@ func (m *verifC39Model) apply(w verifC39Write) {
 	switch w.kind {
 	case "latest", "latestBatch":
 		for _, it := range w.items {
-			if it.HashSlot == m.hs {
+			// "advances the channel latest projection monotonically by message
+			// sequence" (pkg/db/meta UpsertChannelLatest); generated sequences are unique
+			if ex, ok := m.latest[it.Latest.ChannelID]; it.HashSlot == m.hs && (!ok || it.Latest.LastMessageSeq > ex.LastMessageSeq) {
 				m.latest[it.Latest.ChannelID] = it.Latest
 			}
 		}
@@ -391,9 +408,10 @@ type verifC39World struct {
 	capture   bool
 	fwdOn     bool
 
-	model  *verifC39Model // every accepted write for the migrating hash slot, in order
-	tmodel *verifC39Model // what the target must hold: snapshot + first-delivered deltas
-	ctl    *verifC39Model // control hash slot that does not migrate
+	model       *verifC39Model // every accepted write for the migrating hash slot, in order
+	tmodel      *verifC39Model // what the target must hold: snapshot + first-delivered deltas
+	ctl         *verifC39Model // control hash slot that does not migrate
+	srcAtSwitch *verifC39Model // what the old owner held when ownership moved
 
 	outbox    []verifC39Row                          // rows the source must have produced, ascending
 	applied   []bool                                 // per outbox position: applied at the target (first delivery happened)
@@ -497,16 +515,16 @@ func (w *verifC39World) fenceData() []byte {
 func (w *verifC39World) genSrcItem(fenced bool, ackTaken map[int]bool) verifC39SrcItem {
 	rt := w.rt
 	switch v := rapid.IntRange(0, 9).Draw(rt, "srcItemKind"); {
-	case v < 6:
-	case v < 8:
+	case v < 5:
+	case v < 7:
 		return verifC39SrcItem{kind: "write", wr: verifC39GenWrite(rt, &w.serial, verifC39Ctl, -1)}
-	case v == 8 && fenced:
+	case v == 7 && fenced:
 		data := EncodeEnterFenceCommandForTarget(verifC39H, verifC39Tgt)
 		if w.capture && rapid.Bool().Draw(rt, "plainFence") {
 			data = EncodeEnterFenceCommand(verifC39H)
 		}
 		return verifC39SrcItem{kind: "refence", data: data}
-	default:
+	case v >= 8:
 		var cand []int
 		for p := range w.outbox {
 			if w.applied[p] && !w.acked[p] && !ackTaken[p] {
@@ -679,7 +697,11 @@ func (w *verifC39World) srcBatch(items []verifC39SrcItem) {
 	}
 	w.phase = ph
 
-	w.checkEqual("after the source applied "+fmt.Sprint(descr), w.dbS, verifC39H, w.model)
+	if w.phase < 3 {
+		w.checkEqual("after the source applied "+fmt.Sprint(descr), w.dbS, verifC39H, w.model)
+	} else {
+		w.checkEqual("after the old owner applied "+fmt.Sprint(descr), w.dbS, verifC39H, w.srcAtSwitch)
+	}
 	if ctlTouched {
 		w.checkEqual("after the source applied "+fmt.Sprint(descr)+" (non-migrating hash slot)", w.dbS, verifC39Ctl, w.ctl)
 	}
@@ -1387,12 +1409,13 @@ func (w *verifC39World) actMisrouted(rt *rapid.T) {
 	w.rt = rt
 	if w.phase == 3 {
 		wr := verifC39GenWrite(rt, &w.serial, verifC39H, int(verifC39Ctl))
+		before := verifC39ReadHS(rt, w.dbS, verifC39H)
 		res, err := w.srcApply(wr.envelope(), wr.encode())
 		w.log = append(w.log, "S?"+wr.String())
 		if err == nil && res != ApplyResultHashSlotFenced {
 			w.fail("old owner accepted ordinary write %s for the hash slot it no longer owns (result %q)", wr, res)
 		}
-		w.checkEqual("after misrouted write at the old owner", w.dbS, verifC39H, w.model)
+		w.checkEqual("after misrouted write at the old owner", w.dbS, verifC39H, before)
 		w.checkEqual("after misrouted write at the old owner (its own hash slot)", w.dbS, verifC39Ctl, w.ctl)
 		w.nMisPost++
 		return
@@ -1474,6 +1497,7 @@ func (w *verifC39World) switchOwnership() {
 	w.tgt.UpdateOwnedHashSlots(w.tgtOwned)
 	w.tgt.UpdateIncomingDeltaHashSlots(nil)
 	w.phase = 3
+	w.srcAtSwitch = w.model.clone()
 	w.log = append(w.log, "SWITCH")
 }
 
